@@ -137,6 +137,14 @@ fn limit_of(s: &str) -> settings::Type {
             None,
             if v.len() > 3 { v[3].parse().ok() } else { None },
         ),
+        // timei:<wtime>:<btime>:<winc>:<binc>[:<movestogo>]
+        "timei" => settings::Type::Time(
+            v[1].parse().unwrap(),
+            v[2].parse().unwrap(),
+            v[3].parse().ok(),
+            v[4].parse().ok(),
+            if v.len() > 5 { v[5].parse().ok() } else { None },
+        ),
         _ => settings::Type::Infinite,
     }
 }
